@@ -126,9 +126,11 @@ func (sg *segmentTimelineGenerator) generateSegmentTimelineNrMPD(log *slog.Logge
 	if err != nil {
 		log.Error("Failed to rename segment times", "err", err)
 	}
-	endTime := int64(ch.startTime*1000 + int64(newLatestSeqNr+1)*int64(ch.masterSegDuration)*1000/int64(ch.masterTimescale))
-	log.Info("Wrote MPD", "name", timelineNrMPD, "oldestNr", firstNr, "latestNr", lastNr, "nowMS", nowMS, "endTime", endTime,
-		"diff", nowMS-endTime)
+	if ch.masterTimescale != 0 {
+		endTime := int64(ch.startTime*1000 + int64(newLatestSeqNr+1)*int64(ch.masterSegDuration)*1000/int64(ch.masterTimescale))
+		log.Info("Wrote MPD", "name", timelineNrMPD, "oldestNr", firstNr, "latestNr", lastNr, "nowMS", nowMS, "endTime", endTime,
+			"diff", nowMS-endTime)
+	}
 	return nil
 }
 
